@@ -2095,9 +2095,14 @@ void compress_function_tables () {
           cftp->index[i] = (unsigned char)j++;
           if (j == 256)
             {
-              /* Woops.  Fix things up a bit */
+              /* Woops.  The index bytes cannot name more than 255 entries (255 itself means
+               * "left out"): this entry and everything behind it is kept as it is, like the
+               * functions the program defines itself.  The window of index bytes ends here
+               * (num_compressed is what first_defined minus that window's length has to
+               * give), and the part kept as it is has grown by what the window lost. */
               cftp->first_defined = (function_index_t)(f_def = f_ov + i);
-              cftp->num_compressed = (unsigned short)i;
+              cftp->num_compressed = (unsigned short)(f_def - i);
+              n_def = n_tot - f_def;
               for (j = i; j < n_ov; j++)
                 cftp->index[j] = 255;
               j = 255;
